@@ -244,12 +244,20 @@ pub fn check_case(c: &TwoHopCase, l: &mut Local, bounds_only: bool) -> Result<()
 pub fn case_strategy() -> BoxedStrategy<TwoHopCase> {
     let mk = prop_oneof![4 => Just(0u8), 1 => Just(1u8), 1 => Just(2u8)];
     (
-        (history_strategy(false, false, 14), mk.clone()).prop_map(|(mut h, k)| {
+        // adaptive pools: one in three is created through a permissioned tier with a trade-enable time (already past, about
+        // now, or still ahead when the two-hop runs), so "a leg that is not yet tradable" occurs for either leg
+        (history_strategy(false, false, 14), mk.clone(), prop_oneof![2 => Just(None), 1 => prop_oneof![Just(0u32), 1u32..100, 10_000u32..200_000].prop_map(Some)]).prop_map(|(mut h, k, d)| {
             h.spec.mint_kind = k;
+            if h.spec.adaptive.is_some() {
+                h.spec.trade_enable_delay = d;
+            }
             h
         }),
-        (with_adaptive(spec_strategy(false, false), 4), mk).prop_map(|(mut s, k)| {
+        (with_adaptive(spec_strategy(false, false), 4), mk, prop_oneof![2 => Just(None), 1 => prop_oneof![Just(0u32), 1u32..100, 10_000u32..200_000].prop_map(Some)]).prop_map(|(mut s, k, d)| {
             s.mint_kind = k;
+            if s.adaptive.is_some() {
+                s.trade_enable_delay = d;
+            }
             s
         }),
         prop::collection::vec(
